@@ -200,29 +200,29 @@ after the move), and there are only four:
                  `tok k`, `k.isKey` (a scalar or id — not `{`, `}`, `=`, not an rgb block); a value is owed next;
 * `ghost`      — no value owed; an adjacent `{ }` pair is read and not recorded;
 * `rewrite`    — (only_empties, tape.rs:600-616) no value owed; one `=` is read and not recorded while the tape
-                 content ends with `{`, `n ≥ 1` empty containers `{ }`, at most one further PLAIN tape token
-                 (`odd`, the token `chunks_exact(2)` overlooks: not a container start, not an `End`), and the KEY
-                 token `last`; the empty containers and `odd` are removed; a value is owed next.
+                 content ends with `{`, `n ≥ 1` empty containers `{ }`, at most one further tape token (`odd`,
+                 the token `chunks_exact(2)` overlooks: a scalar, an id or an rgb block, `isVal` — never `{`,
+                 `}` or `=`), and the KEY token `last`; the empty containers and `odd` are removed; a value is
+                 owed next.
 `odds` lists the `odd` chunk of every `rewrite`, so its length is the number of rewritten containers.
 
 EXACT in: which lexemes can be dropped, what must stand before them on the tape, what `last` and `odd` are,
 that nothing is dropped while a value is owed.  UPPER BOUND in (the lexeme content of a tape does not show these,
 see `Move`): `eqAfterKey` / `ghost` are allowed wherever no value is owed (the parser does them only in key
 position of an object or the root — states `KeyValueSeparator`/`OpenSecond`, resp. `Key` — not in an array and
-not behind a `MixedContainer` marker), and `odd` may be the content of an `Equal` token (reviewer's instance
-`{ {} = a = b }` ↦ `[{, a, b, }]`, odds `[[=]]` is still accepted by the relation although the parser keeps
-every lexeme there).  The non-instances below show what IS refuted. -/
+not behind a `MixedContainer` marker).  The non-instances below (the reviewer's four among them) show what IS
+refuted. -/
 theorem C03_dropped_lexemes (opt : Bool) (data : Bytes) (T : Tape) (h : parse opt data = .ok T)
     (L : List Lx) (hL : Lexes data L) : ∃ odds, Moves false [] L (flat T) odds :=
   parse_moves opt data T h L hL
 
 /-- **No scalar / id lexeme is dropped, except at most one tape token per only_empties-rewritten container.**
 As multisets, the scalar / id lexemes of the input are those of the tape plus those of the `odd` chunks; there
-is one chunk per rewrite move, and each chunk is empty or the lexemes of a single plain tape token. -/
+is one chunk per rewrite move, and each chunk is empty or the lexemes of a single scalar / id / rgb tape token. -/
 theorem C03_no_scalar_dropped (opt : Bool) (data : Bytes) (T : Tape) (h : parse opt data = .ok T)
     (L : List Lx) (hL : Lexes data L) :
     ∃ odds : List (List Lx), Moves false [] L (flat T) odds ∧
-      (∀ o ∈ odds, o = [] ∨ ∃ y : BTok, o = flatten y ∧ y.isPlain = true) ∧
+      (∀ o ∈ odds, o = [] ∨ ∃ y : BTok, o = flatten y ∧ y.isVal = true) ∧
       (L.filter Lx.isTok).Perm ((flat T).filter Lx.isTok ++ odds.flatten.filter Lx.isTok) := by
   obtain ⟨odds, hm⟩ := parse_moves opt data T h L hL
   exact ⟨odds, hm, hm.odds_shape, by simpa using hm.toks_perm⟩
@@ -291,6 +291,33 @@ example : ¬ ∃ odds, Moves false [] [.open_, .open_, .close, .equal, .tok (.to
     have h2 := List.append_inj_left' this rfl
     have h3 := List.append_inj_right' h2 rfl
     simp at h3
+
+/-- NON-instance (reviewer's D): `{ {} = a = b }` with content `[{, a, b, }]` (two `=` dropped by one rewrite, `odd`
+being an `Equal` token): refuted, `odd` is never an `=` and the first `=` has no key before it -/
+example : ¬ ∃ odds, Moves false [] [.open_, .open_, .close, .equal, .tok (.token 1), .equal, .tok (.token 2), .close]
+    [.open_, .tok (.token 1), .tok (.token 2), .close] odds := by
+  rintro ⟨odds, h⟩
+  have := h.first_equal (by simp) [.open_, .open_, .close] [.tok (.token 1), .equal, .tok (.token 2), .close] rfl
+    (by simp [Lx.isTok]) (by simp)
+  simp at this
+
+/-- **An `=` that is recorded stays recorded** (`Moves.equal_kept`: not even the only_empties rewrite removes
+one), and an `=` can be dropped only behind a key: for an accepted input whose tape shows no `=`, the first `=`
+of the input has a scalar / id lexeme before it. -/
+theorem C03_equal_only_behind_key (opt : Bool) (data : Bytes) (T : Tape) (h : parse opt data = .ok T)
+    (L : List Lx) (hL : Lexes data L) (hE : Lx.equal ∉ flat T) :
+    ∀ L' R, L = L' ++ Lx.equal :: R → Lx.equal ∉ L' → ∃ x ∈ L', Lx.isTok x = true := by
+  obtain ⟨odds, hm⟩ := parse_moves opt data T h L hL
+  intro L' R he hn
+  refine Classical.byContradiction fun hc => hE ?_
+  refine hm.first_equal (by simp) L' R he (fun x hx => ?_) hn
+  cases hx' : Lx.isTok x with
+  | false => rfl
+  | true => exact absurd ⟨x, hx, hx'⟩ hc
+
+/-- hypotheses satisfiable: `a = b` -/
+example : parse true [0x11, 0x11, 1, 0, 0x22, 0x22] = .ok [.token 0x1111, .token 0x2222] ∧
+    Lx.equal ∉ flat [.token 0x1111, .token 0x2222] := ⟨rfl, by decide⟩
 
 /-- (weak form, kept for reference: an interleaving with cause TAGS.  GAP: the tags carry no context and
 `oddToken` admits any lexeme any number of times, so this statement alone follows from
